@@ -46,7 +46,7 @@ PURE_BUILTINS = {"abs": abs, "min": min, "max": max, "len": len, "tuple": tuple,
                  "sorted": sorted, "bool": bool, "sum": sum, "any": any, "all": all, "set": set,
                  "range": range, "enumerate": enumerate, "zip": zip, "reversed": reversed, "int": int, "round": round,
                  "float": float, "isinstance": None, "id": id, "map": map, "str": str, "Fraction": Fr, "iter": iter, "next": next, "divmod": divmod, "pow": pow, "hasattr": hasattr,
-                 "dict": dict, "frozenset": frozenset, "repr": repr}
+                 "dict": dict, "frozenset": frozenset, "repr": repr, "filter": filter}
 
 
 CONTAINER_METHODS = {"append", "pop", "remove", "insert", "add", "index", "count", "extend", "sort", "reverse", "copy",
